@@ -28,7 +28,7 @@ IMPLEMENTED_OPCODES = {
     "LocationProtocol": ("StandardRequest", "StandardReport"),
     "RadioControlProtocol": ("BroadcastMessageConfigurationReply", "BroadcastMessageConfigurationRequest", "BroadcastStatusConfigurationReply",
                              "BroadcastStatusConfigurationRequest", "CallReply", "CallRequest", "RadioIDAndRadioIPQueryRequest", "RadioStatusReport",
-                             "SendTalkerAliasReply", "StatusChangeNotificationReply", "StatusChangeNotificationRequest", "UnknownService",
+                             "SendTalkerAliasReply", "SendTalkerAliasRequest", "RadioIDAndRadioIPQueryReply", "StatusChangeNotificationReply", "StatusChangeNotificationRequest", "UnknownService",
                              "ZoneAndChannelOperationReply", "ZoneAndChannelOperationRequest", "RepeaterBroadcastTransmitStatus"),
     "TextMessageProtocol": ("GroupShortData", "GroupShortDataAck", "PrivateShortData", "PrivateShortDataAck", "SendGroupMessage", "SendGroupMessageAck",
                             "SendPrivateMessage", "SendPrivateMessageAck"),
@@ -358,15 +358,37 @@ def run(ctx):
             if shp2 not in shapes:
                 shapes[shp2] = (fname + "+sibling", rawv, "HDAP")
                 derived += 1
-    # ---- phase 1c: the five RRS messages built through the constructor (no capture is a bare RRS HDAP frame)
+    # ---- phase 1c: messages built through the constructor — the five RRS messages (no capture is a bare RRS HDAP frame) and the RCP
+    # opcodes that both reader and writer implement but no capture (nor a re-encoded sibling of one) carries
     rrs_ci = repo.cls(f"{PMOD}.radio_registration_service", "RadioRegistrationService")
     rrs_ops = repo.enum_members(repo.cls(f"{PMOD}.radio_registration_service", "RRSTypes"))
     rip_ci = repo.cls(f"{PMOD}.radio_ip", "RadioIP")
+    rcp_ci = repo.cls(f"{PMOD}.radio_control_protocol", "RadioControlProtocol")
+    rcp_ops = repo.enum_members(repo.cls(f"{PMOD}.radio_control_protocol", "RCPOpcode"))
+    rcp_ct = repo.enum_members(repo.cls(f"{PMOD}.radio_control_protocol", "RCPCallType"))
+    rcp_tg = repo.enum_members(repo.cls(f"{PMOD}.radio_control_protocol", "RadioIpIdTarget"))
+    rcp_res = repo.enum_members(repo.cls(f"{PMOD}.radio_control_protocol", "RCPResult"))
+    tadf = repo.enum_members(repo.cls("etsi.layer3.elements.talker_alias_data_format", "TalkerAliasDataFormat"))
+    builds = []
     for m in rrs_ops.values():
-        def run_b(st, m=m):
+        builds.append((rrs_ci, m, "built:RRS", lambda I_, m=m: I_.construct(rrs_ci, [], {
+            "opcode": m, "radio_ip": I_.construct(rip_ci, [], {"radio_id": 2305, "subnet": 10}), "renew_time_seconds": 3600})))
+    if "SendTalkerAliasRequest" in rcp_ops and rcp_ct:
+        ct0 = sorted(rcp_ct.values(), key=lambda e: e.name)[0]
+        for fm in tadf.values():
+            for alias in (b"\x41\x00\x42\x00\x43\x00", b"\x41\x00\x42\x00\x43\x00\x44\x00\x45\x00\x46\x00\x47\x00\x48\x00"):
+                builds.append((rcp_ci, rcp_ops["SendTalkerAliasRequest"], "built:RCP", lambda I_, fm=fm, alias=alias: I_.construct(rcp_ci, [], {
+                    "opcode": rcp_ops["SendTalkerAliasRequest"], "call_type": ct0, "sender_id": 2305, "target_id": 2306,
+                    "talker_alias_format": fm, "talker_alias_data": alias})))
+    if "RadioIDAndRadioIPQueryReply" in rcp_ops and rcp_res:
+        res0 = sorted(rcp_res.values(), key=lambda e: e.name)[0]
+        for tg in rcp_tg.values():
+            builds.append((rcp_ci, rcp_ops["RadioIDAndRadioIPQueryReply"], "built:RCP", lambda I_, tg=tg: I_.construct(rcp_ci, [], {
+                "opcode": rcp_ops["RadioIDAndRadioIPQueryReply"], "result": res0, "target": tg, "raw_value": b"\x0a\x00\x09\x01"})))
+    for b_ci, m, b_label, mk in builds:
+        def run_b(st, mk=mk):
             I0.st = st
-            ip = I0.construct(rip_ci, [], {"radio_id": 2305, "subnet": 10})
-            ob = I0.construct(rrs_ci, [], {"opcode": m, "radio_ip": ip, "renew_time_seconds": 3600})
+            ob = mk(I0)
             w = I0.call(repo.find_method(ob.cls, "as_bytes"), [ob], {})
             st.__dict__["sibling_written"] = True
             ob2 = I0.call(hd_fb, [w], {})
@@ -377,8 +399,8 @@ def run(ctx):
             rb = explore(run_b, max_paths=4)
         except AnalysisError:
             continue
-        if len(rb) == 1 and rb[0][1][0] == "raise" and rb[0][0].__dict__.get("sibling_written") and m.name in IMPLEMENTED_OPCODES.get(rrs_ci.name, ()):
-            ctx.ob("shape/sibling-opcodes", f"{rrs_ci.name}[{m.name}] | built through the constructor", False,
+        if len(rb) == 1 and rb[0][1][0] == "raise" and rb[0][0].__dict__.get("sibling_written") and m.name in IMPLEMENTED_OPCODES.get(b_ci.name, ()):
+            ctx.ob("shape/sibling-opcodes", f"{b_ci.name}[{m.name}] | built through the constructor", False,
                    f"the writer serialises opcode {m.name}, the reader answers: {rb[0][1][1].exc} {rb[0][1][1].msg}", hd_fb.loc)
             continue
         if len(rb) != 1 or rb[0][1][0] != "ok":
@@ -387,12 +409,13 @@ def run(ctx):
         bw = bits_of(I0, w)
         if bw is None or not all(isinstance(b, F) and b.is_const for b in bw) or ob2.attrs.get("opcode") != m:
             continue
-        sib_ok.add((rrs_ci.name, m.name))
-        n_sib_ok += 1
+        if (b_ci.name, m.name) not in sib_ok:
+            sib_ok.add((b_ci.name, m.name))
+            n_sib_ok += 1
         rawv = bytes(int("".join(str(b.c) for b in bw[i:i + 8]), 2) for i in range(0, len(bw), 8))
         shp2 = ("HDAP", shape_of(ob2))
         if shp2 not in shapes:
-            shapes[shp2] = ("built:RRS", rawv, "HDAP")
+            shapes[shp2] = (b_label, rawv, "HDAP")
             derived += 1
     ctx.extra["derived_sibling_shapes"] = derived
     if os.environ.get("C12_DEBUG_SIB"):
